@@ -231,6 +231,7 @@ func extractTarGz(tarGzFile, dest string) error {
 	}
 	defer gzr.Close()
 	tr := tar.NewReader(gzr)
+	cleanDest := filepath.Clean(dest)
 	for {
 		header, err := tr.Next()
 		if err == io.EOF {
@@ -240,7 +241,7 @@ func extractTarGz(tarGzFile, dest string) error {
 			return err
 		}
 		target := filepath.Join(dest, header.Name)
-		if !strings.HasPrefix(target, filepath.Clean(dest)+string(os.PathSeparator)) {
+		if target != cleanDest && !strings.HasPrefix(target, cleanDest+string(os.PathSeparator)) {
 			return fmt.Errorf("%s: illegal file path", target)
 		}
 		switch header.Typeflag {
@@ -278,11 +279,18 @@ func extractZip(zipFile, dest string) error {
 		return err
 	}
 	defer r.Close()
+	cleanDest := filepath.Clean(dest)
 	decompress := func(file *zip.File) error {
 		path := filepath.Join(dest, file.Name)
+		if path != cleanDest && !strings.HasPrefix(path, cleanDest+string(os.PathSeparator)) {
+			return fmt.Errorf("%s: illegal file path", path)
+		}
 
 		if file.FileInfo().IsDir() {
 			return os.MkdirAll(path, 0700)
+		}
+		if err := os.MkdirAll(filepath.Dir(path), 0755); err != nil {
+			return err
 		}
 
 		fs, err := file.Open()
